@@ -49,3 +49,17 @@ package mdiff
 //@   at after "out = append(out, cur)": assert [C13] forall j int :: {out[j]} 0 <= j && j < len(out) - 1 ==> chunkOK(out[j], lhs, rhs)
 //@   at after "cur.RStart, cur.REnd = rcur, rcur": assert [C13] forall j int :: {out[j]} 0 <= j && j < len(out) - 1 ==> chunkOK(out[j], lhs, rhs)
 //@   at after "cur.RStart, cur.REnd = rcur, rcur": assert [C13] partial(cur, lhs, rhs) && len(cur.Edits) == 0 && cur == out[len(out) - 1]
+//@
+// findContext: up to n lines before the chunk that are the same on both sides (walking backwards, then reversed), and
+// up to n lines after it. The lines are copies (appended one by one), not spans of Left.
+//@ func (*Diff).findContext
+//@   requires [C13] d != nil && c != nil && 1 <= c.LStart && c.LStart <= c.LEnd && c.LEnd <= len(d.Left) + 1 && 1 <= c.RStart && c.RStart <= c.REnd && c.REnd <= len(d.Right) + 1
+//@   ensures  [C13] preLen: len(result.0) <= n && len(result.0) <= c.LStart - 1 && len(result.0) <= c.RStart - 1 && (len(result.0) > 0 ==> fresh(result.0))
+//@   ensures  [C13] pre: forall j int :: {result.0[j]} 0 <= j && j < len(result.0) ==> streq(result.0[j], d.Left[c.LStart - 1 - len(result.0) + j]) && streq(result.0[j], d.Right[c.RStart - 1 - len(result.0) + j])
+//@   ensures  [C13] postLen: len(result.1) <= n && c.LEnd - 1 + len(result.1) <= len(d.Left) && c.REnd - 1 + len(result.1) <= len(d.Right) && (len(result.1) > 0 ==> fresh(result.1))
+//@   ensures  [C13] post: forall j int :: {result.1[j]} 0 <= j && j < len(result.1) ==> streq(result.1[j], d.Left[c.LEnd - 1 + j]) && streq(result.1[j], d.Right[c.REnd - 1 + j])
+//@   ensures  [C13] mem: old_arrays_unchanged(result.0) && old_arrays_unchanged(result.1)
+//@   loop 1: invariant [C13] len: 0 <= i && len(pre) == i && i <= n && i <= lcur && i <= rcur && (len(pre) == 0 ==> cap(pre) == 0) && (len(pre) > 0 ==> fresh(pre)) && old_arrays_unchanged(pre)
+//@   loop 1: invariant [C13] lines: forall j int :: {pre[j]} 0 <= j && j < len(pre) ==> streq(pre[j], d.Left[lcur - 1 - j]) && streq(pre[j], d.Right[rcur - 1 - j])
+//@   loop 2: invariant [C13] len: 0 <= i && len(post) == i && i <= n && lend + i <= len(d.Left) && rend + i <= len(d.Right) && (len(post) == 0 ==> cap(post) == 0) && (len(post) > 0 ==> fresh(post)) && old_arrays_unchanged(post) && (len(pre) > 0 ==> post.base != pre.base)
+//@   loop 2: invariant [C13] lines: forall j int :: {post[j]} 0 <= j && j < len(post) ==> streq(post[j], d.Left[lend + j]) && streq(post[j], d.Right[rend + j])
